@@ -17,7 +17,11 @@ Inductive case :=
         (o_re_typed : list (option (res env))) (o_re_any : option (res env))
 (* a byte string that is not a JSON value (truncation, concatenation, fuzz):
    only "some decoder panicked" and "some accepted result did not re-decode equal" are observed *)
-| CBytes (n : nat) (o_panic : bool) (o_unstable : bool).
+| CBytes (n : nat) (o_panic : bool) (o_unstable : bool)
+(* the same bytes as one text frame into a real websocketTransport.Receive (run in a process of its own: a panic in
+   the goroutine Receive starts ends the process, which is reported as Panic); the tree is given when the input
+   is one the model covers *)
+| CWs (in_domain : bool) (j : option (json * uri_table)) (o_ws : res env).
 
 Definition re_of (cx : ctx) (dec : json -> res env) (r : res env) : option (res env) :=
   match r with Ok e => Some (bind (encode e) dec) | _ => None end.
@@ -32,6 +36,8 @@ Definition model_case (c : case) : case :=
             (map (fun k => re_of cx (decode_typed cx case_fuel k) (decode_typed cx case_fuel k j)) kinds)
             (re_of cx (decode_any cx case_fuel) any)
   | CBytes n _ _ => CBytes n false false
+  | CWs dom (Some (j, uris)) _ => CWs dom (Some (j, uris)) (decode_any (mk_cx uris) case_fuel j)
+  | CWs dom None _ => CWs dom None Err
   end.
 
 Definition case_eqb (a b : case) : bool :=
@@ -41,6 +47,7 @@ Definition case_eqb (a b : case) : bool :=
       (list_eqb res_env_eqb t t' && res_env_eqb y y' &&
        list_eqb (option_eqb res_env_eqb) rt rt' && option_eqb res_env_eqb ry ry')
   | CBytes _ p u, CBytes _ p' u' => Bool.eqb p p' && Bool.eqb u u'
+  | CWs dom _ r, CWs _ _ r' => negb dom || res_env_eqb r r'
   | _, _ => false
   end.
 
@@ -62,6 +69,7 @@ Definition check (c : case) : bool :=
   match c with
   | CTree _ _ _ t y rt ry => Nat.eqb (List.length t) 5 && forall2b stable_ok t rt && stable_ok y ry
   | CBytes _ p u => negb p && negb u
+  | CWs _ _ r => negb (is_panic r)
   end.
 
 (* the URI table respects the assumed law of net/url *)
